@@ -14,9 +14,10 @@ cleanup() { git -C /repo worktree remove --force "$WT" >/dev/null 2>&1; git -C /
 trap cleanup EXIT
 demo_run() { # $1 = label
   [ "$DEMO" = "-" ] && return 0
-  local dir=$(head -1 "$DEMO" | sed -n 's|.*place in: *\([^ ]*\).*|\1|p'); [ -z "$dir" ] && dir="."
+  local dir=$(head -1 "$DEMO" | sed -n 's|.*place in: *\([^ ]*\).*|\1|p'); [ -z "$dir" ] && dir="."; [ -d "$WT/$dir" ] || dir="."
   cp "$DEMO" "$WT/$dir/zz_seeded_demo_test.go"
-  (cd "$WT/$dir" && go test -tags verif -vet=off -count=1 -timeout 120s -run . . >/tmp/evalmut-demo.$$ 2>&1); local rc=$?
+  local race=""; head -1 "$DEMO" | grep -q -- "-race" && race="-race"
+  (cd "$WT/$dir" && go test $race -tags verif -vet=off -count=1 -timeout 300s -run . . >/tmp/evalmut-demo.$$ 2>&1); local rc=$?
   rm -f "$WT/$dir/zz_seeded_demo_test.go"
   echo "demo[$1]: exit $rc"; return $rc
 }
